@@ -1083,7 +1083,201 @@ def gen_c04(rng, tier):
     return out
 
 
+# ------------------------------------------------------------------------------- C14 / C16 / C15
+import math
+
+
+def space_fields(ans):
+    """'V<reported> <heap> <inline> <T|F>' -> (reported, heap, inline, scaled_ok)"""
+    if not ans.startswith("V") or " " not in ans:
+        return None
+    t = ans[1:].split()
+    try:
+        return int(t[0]), int(t[1]), int(t[2]), t[3]
+    except Exception:
+        return None
+
+
+def gen_c14(rng, tier):
+    out = []
+    k = 0
+    for n in [0, 1, 255, 256, 257, 2048, 4097, 10000, 20000] + sizes(tier, [50000], [100000, 300000, 1000000]):
+        for kind in QWT_KINDS + ["wt"]:
+            for path in ["new", "from", "collect"]:
+                elem = rng.choice(["u8", "u16", "u32", "u64"])
+                mx = rng.choice([1, 3, 4, 63, 255] + ([1000, 65535] if WIDTH[elem] >= 16 else []))
+                c = tree_case(rng, "c14-%d" % k, kind, elem, tier, "q" if kind != "wt" else "w", n=n, maxsym=mx, sweep=False, paths=(path,))
+                c.lines = [c.lines[0], "Q len", "Q nlevels", "SPACE"]
+                c.tags.update(path=path, cost=n * 10)
+                c.model = n <= 10000
+                c.bound = ("qwt" if kind != "wt" else "wt", n, mx, kind)
+                out.append(c)
+                k += 1
+    for n in [0, 1, 256, 4097, 20000, 100000]:
+        for kind in ["rsq256", "rsq512"]:
+            for path in ["new", "from", "collect"]:
+                s, mix = C.gen_quad_seq(rng, n)
+                c = Case("c14-r%d" % k, tags=dict(kind=kind, n=n, mix=mix, path=path, cost=n * 4))
+                c.add(C.new_line(kind, "u64", path, s)); c.add("SPACE")
+                c.model = n <= 20000
+                c.bound = ("rsq", n, 3, kind)
+                out.append(c); k += 1
+        bits, mix = C.gen_bits(rng, n * 4)
+        c = Case("c14-w%d" % k, tags=dict(kind="rsw", n=n * 4, mix=mix, cost=n))
+        c.add(C.bits_line("rsw", rng.choice(["new", "from"]), bits)); c.add("SPACE")
+        c.model = n <= 20000
+        c.bound = ("rsw", n * 4, 1, "rsw")
+        out.append(c); k += 1
+    return out
+
+
+def post_c14(prop, cases, outs, profiles):
+    import check as K
+    fs = []
+    idx = 0
+    for c in cases:
+        idx += 1
+        for kk, l in enumerate(c.lines):
+            if l == "SPACE" and hasattr(c, "bound"):
+                for prof in profiles:
+                    f = space_fields(outs[prof][idx])
+                    if not f:
+                        continue
+                    rep, heap, inline, ok = f
+                    what, n, mx, kind = c.bound
+                    if what == "qwt":
+                        L = max(1, (max(mx.bit_length(), 1) + 1) // 2) if n else 1
+                        r = 1 / 8 if "256" in kind else 1 / 16
+                        pf = 1 / 100 if kind.endswith("pfs") else 0
+                        bound = L * (n / 4 * (1 + r + 1 / 128 + pf) + 3000)
+                    elif what == "wt":
+                        L = max(mx.bit_length(), 1) if n else 0
+                        bound = 1.05 * n * L / 8 + 600 * L + 64
+                    elif what == "rsq":
+                        r = 1 / 8 if "256" in kind else 1 / 16
+                        bound = n / 4 * (1 + r + 1 / 128) + 600
+                    else:
+                        bound = 1.05 * n / 8 + 600
+                    if heap > bound:
+                        fs.append(K.Finding("violation", prop, c, kk, l, prof, "heap <= %d" % bound, "heap = %d" % heap, "retained heap bytes exceed the stated overhead"))
+            idx += 1
+    return fs
+
+
+def gen_c16(rng, tier):
+    out = []
+    for k in range(sizes(tier, 150, 700)):
+        c = any_structure_case(rng, "c16-%d" % k, tier, small=False)
+        c.lines = [l for l in c.lines if l.startswith("NEW") or l == "Q codes"] + ["SPACE"]
+        c.model = c.tags.get("n", 0) <= 5000
+        out.append(c)
+    return out
+
+
+def post_c16(prop, cases, outs, profiles):
+    import check as K
+    fs = []
+    idx = 0
+    for c in cases:
+        idx += 1
+        for kk, l in enumerate(c.lines):
+            if l == "SPACE":
+                for prof in profiles:
+                    f = space_fields(outs[prof][idx])
+                    if not f:
+                        continue
+                    rep, heap, inline, ok = f
+                    actual = heap + inline
+                    fam = getattr(c, "fam", "")
+                    comps = 40
+                    slack = heap / 32 + 128 * comps
+                    if fam in ("hq", "hw"):
+                        sigma = max(c.seq) if c.seq else 0
+                        slack += 96 * (sigma + 1) + 4096
+                    if fam == "bvm":
+                        slack += heap        # a growable vector may hold up to twice its length
+                    if abs(rep - actual) > slack:
+                        fs.append(K.Finding("violation", prop, c, kk, l, prof, "|reported - retained| <= %d" % slack, "reported %d retained %d" % (rep, actual), "space_usage_byte far from retained memory"))
+                    if ok != "T":
+                        fs.append(K.Finding("violation", prop, c, kk, l, prof, "T", ok, "KiB/MiB/GiB are not the byte count scaled"))
+            idx += 1
+    return fs
+
+
+def gen_c15(rng, tier):
+    out = []
+    k = 0
+    for _ in range(sizes(tier, 90, 400)):
+        fam = rng.choice(["hq", "hw"])
+        kind = rng.choice(HQ_KINDS[:2]) if fam == "hq" else "hwt"
+        n = rng.choice([1, 2, 50, 1000, 5000, 20000])
+        c = huff_case(rng, "c15-%d" % k, kind, rng.choice(["u8", "u16", "u32"]), tier, fam, n=n, sweep=False)
+        c.lines = [c.lines[0], "Q codes", "Q nlevels", "SPACE"]
+        c.fam = fam
+        c.model = n <= 5000
+        out.append(c)
+        k += 1
+    return out
+
+
+def post_c15(prop, cases, outs, profiles):
+    import check as K
+    fs = []
+    idx = 0
+    for c in cases:
+        idx += 1
+        codes = None
+        for kk, l in enumerate(c.lines):
+            for prof in profiles:
+                a = outs[prof][idx]
+                if l == "Q codes" and a.startswith("V") and ";" in a:
+                    ents = [e.split(":") for e in a.split(";", 1)[1].split(",") if e]
+                    codes = {int(s): int(ln) for s, _, ln in ents}
+                    seq = c.seq
+                    n = len(seq)
+                    freq = {}
+                    for x in seq:
+                        freq[x] = freq.get(x, 0) + 1
+                    frag = 2 if c.fam == "hq" else 1
+                    d = 4 if c.fam == "hq" else 2
+                    bits = sum(f * codes.get(s, 0) for s, f in freq.items())
+                    h0 = sum(f / n * math.log2(n / f) for f in freq.values())
+                    limit = n * (h0 + frag)
+                    if bits > limit * (1 + 1e-9) + 1e-6:
+                        fs.append(K.Finding("violation", prop, c, kk, l, prof, "level bits <= n*(H0+%d) = %.1f" % (frag, limit), "%d" % bits, "level data exceeds the entropy bound"))
+                    # never more than the plain tree
+                    mx = max(seq)
+                    plain = n * (frag * max(1, (max(mx.bit_length(), 1) + frag - 1) // frag))
+                    if bits > plain:
+                        fs.append(K.Finding("violation", prop, c, kk, l, prof, "level bits <= plain %d" % plain, "%d" % bits, "Huffman-shaped tree larger than the plain tree"))
+                    # the assumption about minimum_redundancy: no worse than the Shannon code
+                    sh = 0
+                    for s, f in freq.items():
+                        ln = 1
+                        while d ** ln * f < n:
+                            ln += 1
+                        sh += f * ln * frag
+                    if bits > sh:
+                        fs.append(K.Finding("violation", prop, c, kk, l, prof, "cost <= Shannon cost %d" % sh, "%d" % bits, "assumption on the external coder (optimal lengths) does not hold on this input"))
+                    c.level_bits = bits
+                if l == "SPACE" and hasattr(c, "level_bits"):
+                    f = space_fields(a)
+                    if f:
+                        rep, heap, inline, ok = f
+                        r = 1 / 8 if "256" in c.lines[0].split()[1] else (1 / 16 if "512" in c.lines[0].split()[1] else 0.05)
+                        levels = max(codes.values()) // (2 if c.fam == "hq" else 1) if codes else 1
+                        sigma = max(c.seq)
+                        bound = c.level_bits / 8 * (1 + r + 1 / 64) + 3000 * levels + 64 * (sigma + 1) + 8192
+                        if heap > bound:
+                            fs.append(K.Finding("violation", prop, c, kk, l, prof, "heap <= %d" % bound, "heap = %d" % heap, "retained memory exceeds entropy-bounded level data + overhead + tables"))
+            idx += 1
+    return fs
+
+
 PROPS = {
+    "C14": dict(gen=gen_c14, post=post_c14),
+    "C15": dict(gen=gen_c15, post=post_c15),
+    "C16": dict(gen=gen_c16, post=post_c16),
     "C04": dict(gen=gen_c04),
     "C09": dict(gen=gen_c09, profiles=["dbg", "rel", "relnopf"], post=post_c09),
     "C10": dict(gen=gen_c10),
